@@ -106,7 +106,7 @@ class _Batch:
         return [self.func(x) for x in xs]
 
 
-def fresh_process_map(func, items, batch: int = 2, per_item_timeout: float = 150.0):
+def fresh_process_map(func, items, batch: int = 2, per_item_timeout: float = 150.0, budget_s: float = 1800.0):
     """Ordered map in which every batch of items runs in a newly forked process of its own, one batch at a time, under a time limit.
     For Spark cases: the JVM a batch starts belongs to that process and ends with it, so its heap does not grow over a whole run (one
     session serving ~40 Splink cases ran out of heap even after clearing the cache), and a case on which Spark's planner exhausts the
@@ -117,8 +117,12 @@ def fresh_process_map(func, items, batch: int = 2, per_item_timeout: float = 150
         return []
     out = []
     ctx = mp.get_context("fork")
+    t0 = time.time()
     for i in range(0, len(items), batch):
         chunk = items[i:i + batch]
+        if time.time() - t0 > budget_s:  # the Spark part of a run is bounded: what does not fit is excluded and counted
+            out += [{"__timeout__": True} for _ in items[i:]]
+            break
         pool = ctx.Pool(1, initializer=_init_worker)
         try:
             out += pool.apply_async(_Batch(func), (chunk,)).get(timeout=per_item_timeout * len(chunk))
